@@ -145,19 +145,19 @@ theorem chain_with_rel {dstA : List SubA} {dst : List Subquery} (h : ListRel src
     (source : Option Ident) (n : Bytes) (o : Option Op) :
     SubRel src scope { chainA dstA k source with name := n, op := o }
       { chainSubquery dst k source with name := n, op := o } :=
-  ⟨rfl, rfl, rfl, rfl, (chain_rel h k source).source⟩
+  ⟨rfl, rfl, rfl, rfl, (chain_rel_splita h k source).source⟩
 
 theorem chain_op_rel {dstA : List SubA} {dst : List Subquery} (h : ListRel src scope dstA dst) (k : Nat)
     (source : Option Ident) (o : Option Op) :
     SubRel src scope { chainA dstA k source with op := o } { chainSubquery dst k source with op := o } :=
-  ⟨(chain_rel h k source).name, rfl, rfl, rfl, (chain_rel h k source).source⟩
+  ⟨(chain_rel_splita h k source).name, rfl, rfl, rfl, (chain_rel_splita h k source).source⟩
 
 theorem ite_snoc_rel {dstA : List SubA} {dst : List Subquery} (h : ListRel src scope dstA dst) (k : Nat)
     (source : Option Ident) (b : Bool) :
     ListRel src scope (if b = true then dstA else dstA ++ [chainA dstA k source])
       (if b = true then dst else dst ++ [chainSubquery dst k source]) := by
   cases b
-  · exact h.snoc (chain_rel h k source)
+  · exact h.snoc (chain_rel_splita h k source)
   · exact h
 
 /-- the list a sort / take / top works on: the guard on the last subquery is evaluated on
@@ -169,7 +169,7 @@ theorem attach_list_rel {dstA : List SubA} {dst : List Subquery} (h : ListRel sr
         else dstA ++ [chainA dstA k source])
       (if (match lastOf dst k with | some l => g l.op l.sort l.take | none => false) = true then dst
         else dst ++ [chainSubquery dst k source]) := by
-  rcases lastOf_rel h k with ⟨h1, h2⟩ | ⟨a, s, h1, h2, hab⟩
+  rcases lastOf_rel_splita h k with ⟨h1, h2⟩ | ⟨a, s, h1, h2, hab⟩
   · rw [h1, h2]
     exact ite_snoc_rel h k source false
   · rw [h1, h2]
@@ -200,7 +200,7 @@ theorem sim_tab (src : Bytes) (scope : List (Bytes × List Chunk)) :
       simp only [bind, Except.bind, Option.bind, hrel.length_eq]
       by_cases hlen : mid.length = dst.length
       · simp only [hlen, ↓reduceIte, pure, Except.pure]
-        exact ⟨hw, _, rfl, by rw [← hlen]; exact hrel.snoc (chain_rel hrel _ _)⟩
+        exact ⟨hw, _, rfl, by rw [← hlen]; exact hrel.snoc (chain_rel_splita hrel _ _)⟩
       · simp only [hlen, ↓reduceIte, pure, Except.pure]
         exact ⟨hw, _, rfl, hrel⟩
 theorem sim_ops (src : Bytes) (scope : List (Bytes × List Chunk)) :
@@ -237,12 +237,12 @@ theorem sim_ops (src : Bytes) (scope : List (Bytes × List Chunk)) :
     | sort p kw terms =>
       unfold splitOps splitOpsA opsWritable
       exact sim_ops src scope rest source k _ _
-        (setLast_rel (attach_list_rel h k source (fun o s t => canAttachSort o && s.isNone && t.isNone))
+        (setLast_rel_splita (attach_list_rel h k source (fun o s t => canAttachSort o && s.isNone && t.isNone))
           fun a s hab => ⟨hab.name, hab.op, rfl, hab.take, hab.source⟩)
     | take p kw n =>
       unfold splitOps splitOpsA opsWritable
       exact sim_ops src scope rest source k _ _
-        (setLast_rel (attach_list_rel h k source (fun o s t => canAttachSort o && t.isNone))
+        (setLast_rel_splita (attach_list_rel h k source (fun o s t => canAttachSort o && t.isNone))
           fun a s hab => ⟨hab.name, hab.op, hab.sort, rfl, hab.source⟩)
     | top p kw n b col =>
       unfold splitOps splitOpsA opsWritable
@@ -250,7 +250,7 @@ theorem sim_ops (src : Bytes) (scope : List (Bytes × List Chunk)) :
       | none => exact .inl rfl
       | some c =>
         exact sim_ops src scope rest source k _ _
-          (setLast_rel (attach_list_rel h k source (fun o s t => canAttachSort o && s.isNone && t.isNone))
+          (setLast_rel_splita (attach_list_rel h k source (fun o s t => canAttachSort o && s.isNone && t.isNone))
             fun a s hab => ⟨hab.name, hab.op, rfl, rfl, hab.source⟩)
     | join p kw kind ka flavor lp right rp on conds =>
       have ih := sim_tab src scope right dstA dst h
